@@ -137,6 +137,15 @@ def run_case(rec, Kx, Ky, N, per, orient, op, li, seed, pre=None):
     va_p = layout_da(fields[0][3], "Y", playout, fields[1][3])
     if single:
         ua, va = ua.astype(np.float32), va.astype(np.float32)
+    if (li + Kx + len(orient)) % 2 == 0:
+        # history: the same Grid first treats arrays at the same positions as *scalars* (same axes, same halo width);
+        # what that call worked out about the links must not be taken over by the vector calls that follow
+        for a_, ax_ in ((ua, "X"), (va, "Y")):
+            try:
+                getattr(g, op)(a_, ax_, **ckw)
+                rec.calls += 1
+            except Exception:
+                pass
     try:
         ru = getattr(g, op)({"X": ua}, "X", other_component={"Y": va_p}, **ckw)
         rv = getattr(g, op)({"Y": va}, "Y", other_component={"X": ua_p}, **ckw)
